@@ -304,9 +304,131 @@ def run_cases(calls, name):
     vals, errs = coq_eval_cases(name, HEADER, terms, per_file=40)
     return outs, vals, errs
 
+# ---------------------------------------------------------------- fixed block: the same uncertain-number data in every container form
+# "mean, standard_deviation, standard_uncertainty and variance_covariance_complex ... use only the values of uncertain-number
+# data": run in EVERY tier, no random choice.  The same data (UncertainReal / UncertainComplex objects with non-zero
+# uncertainties) is handed over as list, tuple, uarray, object ndarray, iter(list), generator expression, dict.values() and
+# deque (sets: uncertain numbers are unhashable); the result must be the result of the list form bit for bit, type included
+# (float / complex / the x,u,df,r of the returned estimate), never an uncertain number where the list form gives a plain one.
+# Cells where the unchanged library refuses the container (no len() on iterators; `float(UncertainReal)` for complex data in
+# an object ndarray / dict view) may alternatively raise TypeError -- nothing else.
+CONTAINER_REAL = [1.25, -0.5, 3.1, 2.2, 0.7]
+CONTAINER_CPLX = [(1.25, 0.3), (-0.5, 1.1), (3.1, -2.0), (2.2, 0.4)]
+CONTAINER_FORMS = ('list', 'tuple', 'uarray', 'ndarray', 'iter', 'genexp', 'dict.values', 'deque')
+NO_LEN = ('iter', 'genexp')
+VIEW = ('ndarray', 'dict.values')
+def container_may_raise(fn, kind, form):
+    """(function, data kind, form) for which TypeError is the documented-by-behaviour alternative on the pinned library"""
+    if fn == 'mean': return False
+    if form in NO_LEN: return True
+    if kind == 'cplx' and form in VIEW and fn in ('standard_deviation', 'standard_uncertainty', 'estimate'): return True
+    if fn == 'estimate_digitized' and form in VIEW: return True
+    return False
+# reported to the coordinator, excluded until answered: variance_covariance_complex of ucomplex data in an object ndarray or a
+# dict view returns UncertainReal elements that carry the data's uncertainties (value_seq only converts sequences)
+CONTAINER_PENDING = {('variance_covariance_complex', 'cplx', 'ndarray'), ('variance_covariance_complex', 'cplx', 'dict.values')}
+
+def _canon(r):
+    """a result as nested tuples of (type name, exact bits)"""
+    from GTC import lib
+    if isinstance(r, lib.UncertainReal): return ('UncertainReal', float(r.x).hex(), float(r.u).hex(), float(r.df).hex())
+    if isinstance(r, lib.UncertainComplex): return ('UncertainComplex', _canon(r.real), _canon(r.imag), float(r.r).hex())
+    if isinstance(r, bool) or r is None: return (type(r).__name__, r)
+    if isinstance(r, complex): return ('complex', r.real.hex(), r.imag.hex())
+    if isinstance(r, float): return ('float', r.hex())
+    if isinstance(r, int): return ('int', r)
+    if isinstance(r, (tuple, list)): return ('seq',) + tuple(_canon(x) for x in r)
+    return (type(r).__name__, repr(r)[:60])
+
+def _plain(c):
+    """no uncertain number where a plain number is expected"""
+    return 'Uncertain' not in repr(c)
+
+def container_block():
+    import numpy as np
+    from collections import deque
+    from GTC import type_a, core
+    from GTC.uncertain_array import UncertainArray
+    mism = []; n = 0
+    def mk(form, l):
+        return {'list': lambda: list(l), 'tuple': lambda: tuple(l), 'uarray': lambda: UncertainArray(list(l)),
+                'ndarray': lambda: np.array(list(l), dtype=object), 'iter': lambda: iter(list(l)), 'genexp': lambda: (x for x in l),
+                'dict.values': lambda: {i: x for i, x in enumerate(l)}.values(), 'deque': lambda: deque(l)}[form]()
+    FN = [('mean', ('real', 'cplx'), lambda d: type_a.mean(d), True),
+          ('standard_deviation', ('real', 'cplx'), lambda d: type_a.standard_deviation(d), True),
+          ('standard_uncertainty', ('real', 'cplx'), lambda d: type_a.standard_uncertainty(d), True),
+          ('variance_covariance_complex', ('cplx',), lambda d: type_a.variance_covariance_complex(d), True),
+          ('estimate', ('real', 'cplx'), lambda d: type_a.estimate(d), False),
+          ('estimate_digitized', ('real',), lambda d: type_a.estimate_digitized(d, 0.1), False)]
+    for fn, kinds, f, plain in FN:
+        for kind in kinds:
+            results = {}
+            for form in CONTAINER_FORMS:
+                new_context(77)
+                data = ([core.ureal(v, 0.1 + 0.01 * i, 3 + i) for i, v in enumerate(CONTAINER_REAL)] if kind == 'real' else
+                        [core.ucomplex(complex(a, b), (0.1, 0.2), 5) for a, b in CONTAINER_CPLX])
+                try: results[form] = ('ok', _canon(f(mk(form, data))))
+                except Exception as ex: results[form] = ('exn', type(ex).__name__)
+            ref = results['list']
+            for form in CONTAINER_FORMS:
+                if (fn, kind, form) in CONTAINER_PENDING: continue
+                n += 1
+                got = results[form]
+                ok = (got == ref and got[0] == 'ok' and (not plain or _plain(got[1])))
+                if not ok and container_may_raise(fn, kind, form) and got == ('exn', 'TypeError'): ok = True
+                if not ok:
+                    mism.append({'kind': 'container-form', 'function': fn, 'data': kind, 'form': form, 'got': repr(got)[:300],
+                                 'list_form': repr(ref)[:300]})
+    # the multi estimators: every series in the given form
+    for fn, kind, f in (('multi_estimate_real', 'real', type_a.multi_estimate_real), ('multi_estimate_complex', 'cplx', type_a.multi_estimate_complex)):
+        results = {}
+        for form in CONTAINER_FORMS:
+            new_context(78)
+            if kind == 'real':
+                d1 = [core.ureal(v, 0.1 + 0.01 * i, 3 + i) for i, v in enumerate(CONTAINER_REAL)]
+                d2 = [core.ureal(v * v - 1.0, 0.2, 4) for v in CONTAINER_REAL]
+            else:
+                d1 = [core.ucomplex(complex(a, b), (0.1, 0.2), 5) for a, b in CONTAINER_CPLX]
+                d2 = [core.ucomplex(complex(b, a * b), (0.3, 0.1), 6) for a, b in CONTAINER_CPLX]
+            try:
+                xs = f([mk(form, d1), mk(form, d2)])
+                comps = [c for x in xs for c in ((x.real, x.imag) if kind == 'cplx' else (x,))]
+                results[form] = ('ok', _canon(list(xs)), tuple(core.get_correlation(a, b).hex() for i, a in enumerate(comps) for b in comps[i + 1:]))
+            except Exception as ex: results[form] = ('exn', type(ex).__name__)
+        ref = results['list']
+        for form in CONTAINER_FORMS:
+            n += 1
+            got = results[form]
+            ok = (got == ref and got[0] == 'ok') or (form in NO_LEN and got == ('exn', 'TypeError'))
+            if not ok:
+                mism.append({'kind': 'container-form', 'function': fn, 'data': kind, 'form': form, 'got': repr(got)[:300], 'list_form': repr(ref)[:300]})
+    return mism, n
+
+def fixed_calls():
+    """run in every tier, no random choice: the edge classes of the quantifier through every function -- constant series /
+    components, all observations equal, N = 2, exactly collinear series, exact-zero covariance with both components varying,
+    uncertain-number data, digitized data without scatter for N = 2, 3, 4, 5"""
+    C = [1.0, 1.0, 1.0, 1.0, 1.0]; D = [0.75, 2.0, -1.5, 0.25]; E = [2.0 * v for v in D]; T = [0.1, 0.1, 0.1]
+    sym = [(1.0, 2.0), (-1.0, 2.0), (1.0, -2.0), (-1.0, -2.0)]
+    cc = [(v, 1.0) for v in D]; ce = [(1.0, 1.0)] * 3; col = [(v, 2.0 * v) for v in D]
+    out = []
+    for l in (C, T, D, [3.5, 3.5], [1.0, 2.0]):
+        out += [('est', l, False), ('est', l, True), ('mean', 'KFloat', l), ('mean', 'KUreal', l), ('sd', 'KFloat', l, None), ('sd', 'KUreal', l, None),
+                ('su', 'KFloat', l, None), ('su', 'KUreal', l, None)]
+    for l in (sym, cc, ce, col, [(1.0, 2.0), (3.0, -1.0)]):
+        out += [('estc', l, False), ('estc', l, True), ('meanc', l), ('sdc', l, None), ('suc', l, None), ('vcc', l, None, False), ('vcc', l, None, True)]
+    for ls in ([C], [D], [D, E], [D, C], [C, T + [0.1, 0.1]], [D, E, C], [T, T]):
+        if len(set(len(x) for x in ls)) == 1: out += [('multi', 'KFloat', ls), ('multi', 'KUreal', ls)]
+    for zs in ([sym], [cc], [ce], [col], [sym, col], [cc, ce + [(1.0, 1.0)]]):
+        out += [('multic', zs, False), ('multic', zs, True)]
+    for k in (2, 3, 4, 5):
+        out += [('dig', [0.5] * k, 0.1, False), ('dig', [0.5] * k, 0.1, True)]
+    out += [('dig', [0.5, 0.6, 0.5, 0.6], 0.1, False), ('dig', [0.5, 0.75, 0.5, 1.0], 0.25, True)]
+    return [(c, 'n=%d fixed' % 0) for c in out]
+
 def correspondence(rng, tier):
     n = 360 if tier == 'quick' else 15000
-    calls = [gen_call(rng, i) for i in range(n)]
+    calls = fixed_calls() + [gen_call(rng, i) for i in range(n)]
     outs, vals, errs = run_cases(calls, 'C12')
     mism = []
     for e in errs:
@@ -322,6 +444,9 @@ def correspondence(rng, tier):
             distinct.add(hashlib.sha1(repr(call).encode()).hexdigest())
         if v is not None and v != -1:
             mism.append({'kind': 'model-vs-implementation', 'call': call, 'implementation_output': out})
+    # ---- fixed block (every tier, no random choice): the same uncertain-number data in every container form
+    cmism, ncont = container_block()
+    mism += cmism; stats['container-form cells'] = ncont
     # ---- session level: sequences of estimator calls and dof evaluations within one context
     #  (a) through type_a's own declarations, against the specification (dof of a combination = N-1 whatever came before)
     smism, sstats, sdistinct = c12_sessions.run_suite(rng, 60 if tier == 'quick' else 3000)
@@ -333,7 +458,7 @@ def correspondence(rng, tier):
     mism += ck['mismatches']
     for k, v in ck['distribution'].items():
         if k.startswith('sessions_'): stats['kernel:' + k] += v
-    nprog = len(calls) + sstats.get('sessions', 0) + ck['programs']
+    nprog = len(calls) + sstats.get('sessions', 0) + ck['programs'] + ncont
     nsteps = len(calls) + sstats.get('steps', 0) + ck['steps']
     return {'programs': nprog, 'steps': nsteps, 'mismatches': mism, 'distinct': len(distinct) + sdistinct + ck['distinct'],
             'distribution': dict(stats),
@@ -621,3 +746,21 @@ def replay(payload):
     if r is not None and is_known(r): r = None
     print('replayed on the implementation:', 'STILL FAILS %s' % r.get('what') if r else 'passes now')
     return 1 if r else 0
+
+def kf_vcc_container_values():
+    """known finding C12-vcc-container-values: variance_covariance_complex of ucomplex data in an object ndarray / dict view
+    returns uncertain numbers (the data's uncertainties leak into the sample statistics)"""
+    import numpy as np
+    from GTC import core, type_a
+    new_context(1212)
+    zs = [core.ucomplex(1.25 + 0.3j, (0.1, 0.2), 5), core.ucomplex(-0.5 + 1.1j, (0.1, 0.2), 5),
+          core.ucomplex(3.1 - 2j, (0.1, 0.2), 5), core.ucomplex(2.2 + 0.4j, (0.1, 0.2), 5)]
+    want = type_a.variance_covariance_complex(zs)
+    got = []
+    for form, data in (('ndarray', np.array(zs, dtype=object)), ('dict.values', dict(enumerate(zs)).values())):
+        try:
+            r = type_a.variance_covariance_complex(data)
+            got.append((form, all(isinstance(v, float) for v in r) and tuple(r) == tuple(want)))
+        except Exception as ex:
+            got.append((form, type(ex).__name__))
+    return (any(g[1] is False for g in got), 'variance_covariance_complex on views of ucomplex data: %r (True = plain floats equal to the list form)' % (got,))
